@@ -1,20 +1,20 @@
 SPECIFICATION MCSpec
 CONSTANTS
- Calls = {1, 2, 3, 4, 5, 6}
+ Calls = {1, 2, 3, 4, 5}
  Hosts = {1, 2, 3}
  Hyst = 3
  RetryDelay = 1
  Defect = "noSuppress"
- MCCalls = {1, 2, 3, 4, 5, 6}
+ MCCalls = {1, 2, 3, 4, 5}
  Serial = TRUE
  Kinds <- KSr
  Froms <- F1
- Tos <- T23
+ Tos <- T2
  Shapes <- ShFull
  DelimSets <- DNone
  Ctxs <- CxLive
  NonZero <- BF
- NSOut <- NSAll
+ NSOut <- NSOther
  WErrs <- ENone
  CWRes <- CWOk
  CRRes <- CROk
